@@ -292,7 +292,7 @@ def c04(tr, cx):
             if b[0] < a[1]: tr.v('C04', 'server_intervals_overlap', (key, a, b))
     # utilisation (runs without any pre-emption option, full run to a time horizon)
     f = cx['features']
-    if cx['final_ok'] and spec['run']['method'] == 'time' and not ({'prio_preempt', 'sched_preempt', 'slot_preempt'} & f):
+    if cx['final_ok'] and hook_audit(tr, cx) and spec['run']['method'] == 'time' and not ({'prio_preempt', 'sched_preempt', 'slot_preempt'} & f):
         T = spec['run']['T']
         for nid, util, c_now in cx['utilisation']:
             if not ordinary_finite(spec, nid): continue
@@ -787,6 +787,7 @@ def c10(tr, cx):
         else: vals.remove(hit)
     # each fresh service start consumed exactly one sample: no sample for a customer at an instant it did not start
     starts = collections.Counter()
+    hooks_ok = hook_audit(tr, cx)
     for e in tr.events:
         if e[0] == 'attach' and not e[7]: starts[(e[3], e[2])] += 1
     nsamp = collections.Counter()
@@ -795,7 +796,7 @@ def c10(tr, cx):
     for (cid, nid), ns in nsamp.items():
         if not ordinary_finite(spec, nid): continue
         # resample after pre-emption takes extra samples; only judge runs without any pre-emption option
-        if {'prio_preempt', 'sched_preempt'} & cx['features']: break
+        if ({'prio_preempt', 'sched_preempt'} & cx['features']) or not hooks_ok: break
         tr.count('C10.sample_vs_start_counts')
         if cx['t_cut'] is None and ns != starts[(cid, nid)]:
             tr.v('C10', 'service_samples_vs_service_starts', (cid, nid, ns, starts[(cid, nid)]))
